@@ -12,7 +12,8 @@ BASES = ["http://e.org/", "http://e.org/x/", "http://e.org/x/a_", "http://e.org/
 
 class C19(ProgramProperty):
     id = "C19"
-    theorems = ["C19_wf", "C19_ends", "C19_roundtrip_partial", "C19_github_not_learned"]
+    theorems = ["C19_perm_dup", "C19_wf", "C19_ends", "C19_names", "C19_cutoff", "C19_roundtrip_partial",
+                "C19_github_not_learned"]
     lean_modules = ["CuriesVerif.Properties.C19"]
     rule = ("one case = a multiset of 1-12 URIs built from nested bases (x/, x/a_, x#) and identifiers (ASCII and "
             "non-ASCII alphanumerics such as é ² ٣, and non-alphanumeric tails), delimiter lists (default, reordered, "
